@@ -117,6 +117,8 @@ Damage ==
 Inv == CASE c.k = "val" -> Laws(c.v)
          [] c.k = "rnd" -> Laws(RndValue(c.seed))
          [] c.k = "root" -> TableOK /\ Damage
+                            /\ \A r \in { [n_specs |-> n, present |-> pr, named |-> nm] : n \in {0, 2}, nm \in BOOLEAN,
+                                            pr \in { <<>>, <<"voice">>, <<"hid", "unk3">>, [i \in 1..33 |-> FName(i)] } } : BigRuleLaw(r)
          [] OTHER -> TRUE
 
 EmitOne(v) == LET ct == AssetContent(v) IN
